@@ -338,7 +338,9 @@ def run_case(scratch: str, case: Dict[str, Any], chooser_factory: Callable[[S.Sc
             # one request-level fault at the boto surface: the nth <op> on a key of class <cls> issued by an actor (by the
             # actor named <actor>, when given) is answered by a transient error
             #   "before"   : BEFORE its effect (the request is not applied),
-            #   "after"    : AFTER its effect (applied, the response is lost), or
+            #   "after"    : AFTER its effect (applied, the response is lost),
+            #   "resent"   : AFTER its effect, and the SDK's automatic re-send of the request is refused by the store (the
+            #                client sees 412 / 409 for a conditional write that WAS applied), or
             #   "inflight" : the client gives up on the request while it is still IN FLIGHT: it reaches the store later, at a
             #                scheduling point of its own (actor "L", operation "Land"), and its precondition is evaluated THEN.
             # The log entry of the storage call is annotated with "s3_fault": <when>.
@@ -382,9 +384,18 @@ def run_case(scratch: str, case: Dict[str, Any], chooser_factory: Callable[[S.Sc
                             sc.log[-1]["s3_fault"] = sf.get("when", "after")
                         return True
                 return False
-            if sf.get("when", "after") == "after":
+            if sf.get("when", "after") in ("after", "resent"):
                 def after_hook(op: str, key: str) -> None:
                     if _sf_fire(op, key):
+                        if sf.get("when") == "resent":
+                            # "resent": the request was APPLIED, its response was lost, and the SDK (botocore's default retry
+                            # policy re-sends a PutObject after a connection error / 5xx) sent it again: the second copy of the
+                            # conditional request is evaluated against the object the first one created and REFUSED -- the
+                            # client sees the store's refusal of a write the store has applied
+                            from botocore.exceptions import ClientError
+                            code = "ConditionalRequestConflict" if store.conflict_code == "409" else "PreconditionFailed"
+                            raise ClientError({"Error": {"Code": code, "Message": "injected: re-sent request refused"},
+                                               "ResponseMetadata": {"HTTPStatusCode": 409 if store.conflict_code == "409" else 412}}, "PutObject")
                         raise _sf_exc()
                 store.after_hook = after_hook
             elif sf.get("when") == "inflight":
@@ -462,6 +473,18 @@ def run_case(scratch: str, case: Dict[str, Any], chooser_factory: Callable[[S.Sc
             store.history.clear()           # from here on: what the store applied during the actors' run
         t0 = datashard.load_table(root)
         res.initial = read_table_independent(reader_root)
+        dmg = case.get("pointer_damage")
+        if dmg and store is not None:
+            # the table is at rest with an UNUSABLE version pointer (the actors start from this state; committed history and
+            # metadata files are intact): "missing" (no object), "garbage" / "empty" (bytes that name nothing), "dangling"
+            # (a well-formed name of a metadata file that does not exist)
+            hk = "tbl/" + HINT
+            if dmg == "missing":
+                store.objects.pop(hk, None)
+            else:
+                store._put(hk, {"garbage": b"\xff\xfe\x00 not a version", "empty": b"",
+                                "dangling": b"v99-0badf00d.metadata.json"}[dmg])
+            store.history.clear()
         shared = t0 if case.get("topology", "separate") == "shared" else None
         ops = case["ops"]
         for i, op in enumerate(ops):
@@ -558,7 +581,7 @@ class Nonconforming(Exception):
 
 
 def project(res: CaseResult, nactors: int, cas: bool = False, lease: bool = False,
-            faults: bool = False) -> Tuple[List[Tuple[int, str]], Dict[str, int], List[str]]:
+            faults: bool = False, recover: bool = False) -> Tuple[List[Tuple[int, str]], Dict[str, int], List[str]]:
     """Returns (events as (actor index, Gallina evkind text)), metadata-file name -> vid, notes).
     Raises Nonconforming on a storage call the projection does not know.
 
@@ -566,7 +589,18 @@ def project(res: CaseResult, nactors: int, cas: bool = False, lease: bool = Fals
     evkind to be wrapped in XE): a pointer write that raised an injected request-level error (log annotation "s3_fault")
     is `XFlipErr <applied>`, the lock release that follows it (commit()'s finally) is `XUnwind`; a request whose client gave
     up while it was in flight stays in flight in the model (its sender's lock release is a lapse of its lease) until the
-    "Land" entry: `XFlipErr <applied>; XUnwind` there."""
+    "Land" entry: `XFlipErr <applied>; XUnwind` there.  A pointer write that was applied and whose re-sent copy was refused
+    (log annotation "resent") is `XFlipResent`; the pointer read-back that follows (or, in a source without one, the lock
+    release) is `XReadBack`.
+
+    recover=True (conditional-write storage; case["pointer_damage"]: the actors start on an UNUSABLE pointer): the events of
+    Model/PtrFallback.v are produced as well (texts starting with "R"; every other text is an evkind to be wrapped in RE).
+    The run starts with `RDamage` (identity 0).  A base read that finds the pointer unusable (or absent) and recovers by
+    scanning is `RBegin <vid recovered>`; the ETag-bearing read under the lock that returns an unusable object is
+    `RReadBad 0`; commit()'s fallback refresh() is `RRefresh scan|good <vid> <verdict>` (good: its re-read of the pointer
+    found it usable again), placed at the read of the metadata file it returns; the conditional write of a committer that
+    holds the unusable object's ETag is `RFlip <ok>`; the pointer read that only numbers the next version
+    (commit -> _current_version_info) is dropped for such a committer."""
     vids: Dict[str, int] = {res.initial["pointer"]: 0}
     events: List[Tuple[int, str]] = []
     notes: List[str] = []
@@ -577,6 +611,16 @@ def project(res: CaseResult, nactors: int, cas: bool = False, lease: bool = Fals
     holder: Optional[str] = None
     erring: Dict[str, bool] = {}               # actor -> its pointer write raised, the exception has not left commit() yet
     inflight: Dict[str, Any] = {}              # actor -> its pointer write is in flight although its client gave up ("sent" | "released")
+    bad_id: Optional[int] = None               # recover: identity of the unusable pointer object, None once a pointer write has landed
+    fb: Dict[str, Any] = {}                    # recover: actor -> "read" while its fallback refresh() is pending
+    fb_good: Dict[str, Optional[int]] = {}     # recover: actor -> vid named by the pointer when the fallback re-read it (None: still unusable)
+    tagged: Dict[str, bool] = {}               # recover: actor -> its attempt holds the ETag of the unusable object
+    began: Dict[str, bool] = {}                # recover: actor -> its base read found a usable pointer (EBegin already emitted)
+    deferred_read: Dict[str, Any] = {}         # recover: actor -> its ETag read, not yet placed (see below)
+    resent: Dict[str, bool] = {}               # faults: actor -> its pointer write was applied and then refused to its face; read-back pending
+    if recover:
+        events.append((0, "RDamage"))
+        bad_id = 0
     for idx, e in enumerate(res.log):
         a = e["actor"]
         if faults and e["op"] == "Land":
@@ -595,10 +639,74 @@ def project(res: CaseResult, nactors: int, cas: bool = False, lease: bool = Fals
         ai = int(a[1:])
         op, path, phase, result = e["op"], e["path"], e["phase"], e["result"]
         pcs = path_class(path)
+        if recover and a in deferred_read and not (op == "Sleep" and "S3StorageBackend.read_file_with_etag" in phase):
+            d_idx, d_result, d_name = deferred_read.pop(a)
+            if d_name is not None and d_name in vids:
+                pending_validate[a] = len(events)
+                events.append((ai, f"EValidate {vids[d_name]} ?"))
+            else:
+                if bad_id is None:
+                    raise Nonconforming(f"the ETag read at log[{d_idx}] returned an unusable pointer {d_result!r} although a pointer write has landed")
+                events.append((ai, f"RReadBad {bad_id}"))
+                fb[a], fb_good[a], tagged[a] = "read", None, True
         in_mm_commit = "MetadataManager.commit" in phase
         in_refresh = "MetadataManager.refresh" in phase
         in_txcommit = "Transaction.commit" in phase or "SnapshotManager.delete_snapshot" in phase
-        if op in ("read_file", "read_file_with_etag") and pcs == "hint":
+        if recover and op in ("read_file", "read_file_with_etag") and pcs == "hint":
+            try:
+                name = result.decode("utf-8").strip() if isinstance(result, (bytes, bytearray)) else None
+            except UnicodeDecodeError:
+                name = None
+            known = name is not None and name in vids
+            if "MetadataManager._hint_write_landed" in phase:
+                n_known += 1                      # read-back after a refused conditional write: a pure read
+            elif in_mm_commit and op == "read_file_with_etag" and not validated.get(a):
+                # S3StorageBackend.read_file_with_etag retries a missing object (sleeping in between): what it returns was
+                # read at its LAST attempt, i.e. after the Sleep entries that follow in its phase -- the event is placed at
+                # this actor's next log entry that is not such a Sleep
+                validated[a] = True
+                deferred_read[a] = (idx, result, name)
+            elif in_mm_commit and in_refresh:
+                if fb.get(a) != "read":
+                    raise Nonconforming(f"refresh() inside commit at log[{idx}] although the ETag read named a version")
+                fb_good[a] = vids[name] if known else None
+            elif in_mm_commit:
+                if not tagged.get(a):
+                    raise Nonconforming(f"CAS storage: second pointer read under the lock at log[{idx}] ({op}): the ETag must "
+                                        f"come from the validation read")
+                notes.append("numbering-read")
+            elif in_txcommit and in_refresh:
+                if known:
+                    events.append((ai, f"EBegin {vids[name]}"))
+                    began[a] = True
+            else:
+                n_known += 1
+        elif recover and op == "read_file" and pcs == "meta" and in_refresh and (in_mm_commit or in_txcommit):
+            base = path.rsplit("/", 1)[-1]
+            if base not in vids:
+                raise Nonconforming(f"refresh() returned an unknown metadata file {base} at log[{idx}]")
+            if in_mm_commit:
+                if fb.get(a) != "read":
+                    raise Nonconforming(f"refresh() inside commit at log[{idx}] although the ETag read named a version")
+                if fb_good.get(a) is not None and fb_good[a] != vids[base]:
+                    raise Nonconforming(f"the fallback refresh() at log[{idx}] read the pointer as {fb_good[a]} but returned {vids[base]}")
+                pending_validate[a] = len(events)
+                events.append((ai, f"RRefresh {'good' if fb_good.get(a) is not None else 'scan'} {vids[base]} ?"))
+                fb[a] = None
+            elif began.get(a):
+                began[a] = False
+            else:
+                events.append((ai, f"RBegin {vids[base]}"))
+        elif op == "read_file" and pcs == "hint" and "MetadataManager._hint_write_landed" in phase:
+            # the commit point reads the pointer back after the store REFUSED its conditional write (was our write applied
+            # after all?): a pure read for a genuine refusal; for a refused-although-applied write (s3_fault "resent") it is
+            # the XReadBack step of Model/FlipFault.v
+            if faults and resent.get(a):
+                resent[a] = False
+                events.append((ai, "XReadBack"))
+            else:
+                n_known += 1
+        elif op in ("read_file", "read_file_with_etag") and pcs == "hint":
             name = result.decode("utf-8").strip() if isinstance(result, (bytes, bytearray)) else None
             if name is None or name not in vids:
                 raise Nonconforming(f"pointer read returned unknown content {result!r} at log[{idx}]")
@@ -625,6 +733,7 @@ def project(res: CaseResult, nactors: int, cas: bool = False, lease: bool = Fals
             if not in_mm_commit:
                 raise Nonconforming(f"lock attempt outside MetadataManager.commit at log[{idx}]: {phase}")
             validated[a] = False
+            tagged[a] = False
             if result == "ok" and lease:
                 if holder is not None and holder != a:
                     events.append((ai, "ESteal"))          # the lease had lapsed: the attempt took the lock over
@@ -658,11 +767,20 @@ def project(res: CaseResult, nactors: int, cas: bool = False, lease: bool = Fals
             elif flt in ("before", "after"):
                 events.append((ai, "XFlipErr true" if flt == "after" else "XFlipErr false"))
                 erring[a] = True
+            elif flt == "resent":
+                events.append((ai, "XFlipResent"))      # applied; the client was answered with the store's refusal
+                resent[a] = True
             else:
                 ok = result == "ok"
-                events.append((ai, f"EFlip {'true' if ok else 'false'}"))
+                events.append((ai, f"{'RFlip' if recover and tagged.get(a) else 'EFlip'} {'true' if ok else 'false'}"))
+                if ok:
+                    bad_id = None
         elif op == "LockRel":
             _close_validate(events, pending_validate, a, False)
+            if faults and resent.get(a):
+                # the source has no read-back: the refusal of the applied write was taken at face value
+                resent[a] = False
+                events.append((ai, "XReadBack"))
             if erring.get(a):
                 erring[a] = False
                 if holder == a:
